@@ -171,7 +171,7 @@ def main(argv=None):
     prop = args.prop.upper()
     tier = args.tier if args.tier in ("quick", "thorough") else "quick"
     mod = load_module(prop)
-    budget = args.budget or float(getattr(mod, "BUDGET", {}).get(tier, 45 if tier == "quick" else 600))
+    budget = args.budget or float(getattr(mod, "BUDGET", {}).get(tier, 150 if tier == "quick" else 900))
     nshards = args.shards or int(getattr(mod, "SHARDS", {}).get(tier, 16))
 
     if args._shard >= 0:
